@@ -6,7 +6,8 @@ ASSUMPTIONS = ["empty and inverted ranges/windows count as out of range (DESIGN.
 RULE = ("synthetic files (3D all layouts, irregular, 2D) x argument tuples with >=1 component outside its valid range: just "
         "outside, far outside, negative, inside the padded but outside the real extent, empty and reversed ranges, for every "
         "read path; the real reader must raise IndexError / the dimensionality error (class compared with the model's), and "
-        "anything returned must be the real item (provenance under the symbolic decoder)")
+        "anything returned must be the real item (provenance under the symbolic decoder)"
+        "; K: Model/HeaderReads.run vs real header histories with ordinals at / beyond the trace count and the grid, either padding mode")
 
 
 def run(ctx):
@@ -34,6 +35,9 @@ def run(ctx):
                 s.close()
     finally:
         model.close()
+    # K: the header-read state machine (Model/HeaderReads) on histories with ordinals at and beyond the trace count / grid
+    from . import c15
+    c15.header_histories(ctx, n_quick=12, n_thorough=200, tag='c14-headers')
 
 
 def replay(ctx, rp):
